@@ -3,6 +3,7 @@
   comparison of `CaselessDict.__eq__`.
 -/
 import ICal.Lemmas.Walk
+import ICal.Lemmas.Parse
 namespace ICal
 
 open List
@@ -532,5 +533,60 @@ theorem compEq_symm_trans (hv : VEquiv veq) : ∀ (n : Nat),
         exact T d' d y (sz ha hd') (sz ha hd) (sz hc hy) (wa'.2 d' hd') (wa'.2 d hd) (wc'.2 y hy) f2 e2
 
 end comp
+
+/-! ### the tree the parser returns for a serialisation (`sortedTree`, Lemmas/Parse.lean) -/
+
+mutual
+/-- C01's well-formedness (`PropsOK` demands pairwise distinct names) gives key distinctness -/
+theorem compWF_of_WF (dec : Dec) : ∀ t, WF dec t → Comp.WF t
+  | .mk n p subs, h => by
+    simp only [WF] at h
+    simp only [Comp.WF]
+    exact ⟨h.2.2.1.1, compWFL_of_WFs dec subs h.2.2.2⟩
+theorem compWFL_of_WFs (dec : Dec) : ∀ cs, WFs dec cs → Comp.WFL cs
+  | [], _ => by simp [Comp.WFL]
+  | c :: cs, h => by
+    simp only [WFs] at h
+    simp only [Comp.WFL]
+    exact ⟨compWF_of_WF dec c h.1, compWFL_of_WFs dec cs h.2⟩
+end
+
+section sorted
+variable (veq : Val → Val → Bool) (b : Bool)
+
+mutual
+/-- `sortedTree` permutes the entries of every component and keeps the subcomponents in place,
+    so the result is equal to the original — in both directions -/
+theorem compEq_sortedTree (hr : ∀ v, veq v v = true) : ∀ t, Comp.WF t →
+    compEq veq t (sortedTree b t) = true ∧ compEq veq (sortedTree b t) t = true
+  | .mk n p subs, hw => by
+    simp only [Comp.WF] at hw
+    have hperm := sortedProps_perm b n p hw.1
+    have hd' : keysDistinct (sortedProps b n p) :=
+      (hperm.map (fun e : Entry => e.name)).symm.nodup hw.1
+    have ih := compEq_sortedTrees hr subs hw.2
+    simp only [sortedTree]
+    constructor
+    · rw [compEq_def]
+      simp only [Comp.name, Comp.subs, Comp.props, Bool.and_eq_true, beq_iff_eq]
+      refine ⟨⟨⟨trivial, ih.1.length_eq⟩, propsEq_perm veq hr p _ hw.1 hperm⟩, ?_⟩
+      exact greedy_diag _ _ ((Forall2.map_left (compEq veq)).2 ih.1)
+    · rw [compEq_def]
+      simp only [Comp.name, Comp.subs, Comp.props, Bool.and_eq_true, beq_iff_eq]
+      refine ⟨⟨⟨trivial, ih.2.length_eq⟩, propsEq_perm veq hr _ p hd' hperm.symm⟩, ?_⟩
+      exact greedy_diag _ _ ((Forall2.map_left (compEq veq)).2 ih.2)
+theorem compEq_sortedTrees (hr : ∀ v, veq v v = true) : ∀ cs, Comp.WFL cs →
+    Forall2 (fun c d => compEq veq c d = true) cs (sortedTrees b cs) ∧
+    Forall2 (fun c d => compEq veq c d = true) (sortedTrees b cs) cs
+  | [], _ => by simp only [sortedTrees]; exact ⟨.nil, .nil⟩
+  | c :: cs, hw => by
+    simp only [Comp.WFL] at hw
+    simp only [sortedTrees]
+    have h1 := compEq_sortedTree hr c hw.1
+    have h2 := compEq_sortedTrees hr cs hw.2
+    exact ⟨.cons h1.1 h2.1, .cons h1.2 h2.2⟩
+end
+
+end sorted
 
 end ICal
